@@ -7,7 +7,7 @@ from .c02 import collect
 
 
 def _work(mname):
-    return dis_rules.table_worker(mname, ("C03",))
+    return dis_rules.table_worker(mname, ("C03", "C02"))
 
 
 def run(rep, tier):
@@ -18,7 +18,12 @@ def run(rep, tier):
                    "version (3.11+ merged localsplus = varnames + cells not in varnames; LOAD_GLOBAL/LOAD_ATTR/LOAD_SUPER_ATTR shifts; 3.12/3.13 COMPARE_OP shifts; 3.13 pairs)")
     rep.rule("R2", "optype is the category the table puts the opcode in")
     rep.rule("R3", "the cells table handed to the decoder is co_cellvars + co_freevars, names/varnames/consts are the code object's")
-    T = collect(rep, "C03", _work)
+    rep.rule("R4", "the index that is resolved is the instruction's full operand: low byte(s) combined with the value carried from every EXTENDED_ARG prefix "
+                   "(the operand-assembly and carry obligations of C02-R3, restated)")
+    from ..report import SubReport, merge_sub
+    sub = SubReport("C02")
+    T = collect(rep, "C03", _work, also={"C02": (sub, ("R3",))})
+    merge_sub(rep, sub, "R4", "C02")
     # R3: Bytecode.__iter__ plumbing (def-use)
     bc = T.F.modules["xdis.bytecode"]
     B = bc.ns.get("Bytecode")
